@@ -22,7 +22,7 @@ NA = {
 CHECKS = {
     "C07": dict(level="fault_enumeration", ref="DESIGN.md section 3 (C07)",
         technique="deterministic simulation: crash-prefix enumeration + seeded storage-fault injection at the read seam (SimDisk), step-budget liveness",
-        text="Every line-boundary crash prefix of every corpus file up to 6000 lines (2000 seeded cuts for each of the five larger files) and of iodata-written files is enumerated (thorough) or sampled (quick), plus seeded storage faults (byte cuts, torn tails, lost/duplicated/swapped blocks and lines, bit flips, field overwrites, misnamed files); each faulted file is loaded through the real API on SimDisk and the outcome, the exception contract, line numbers, handle table, shapes and a logical step budget are checked. Evidence, not proof: only line/write boundaries are enumerated.",
+        text="Every line-boundary crash prefix of every corpus file up to 6000 lines (2000 seeded cuts for each of the five larger files) and of iodata-written files is enumerated (thorough) or sampled (quick), plus seeded storage faults (byte cuts, torn tails, lost/duplicated/swapped blocks and lines, bit flips, field overwrites, misnamed files) and, for a fifth of the seeded runs, short reads of 1-8191 bytes per call whose outcome must equal that of one full read; each faulted file is loaded through the real API on SimDisk and the outcome, the exception contract, line numbers, handle table, shapes and a logical step budget are checked. Evidence, not proof: only line/write boundaries are enumerated.",
         note="Trusts CPython's io stack and sys.monitoring, numpy, the storage-fault model (prefix/blocks), and the shape-relation table of the oracle."),
     "C08": dict(level="fault_enumeration", ref="DESIGN.md section 3 (C08)",
         technique="deterministic simulation: write-fault enumeration at every text/raw write and close on SimDisk, with pre-flight defect table",
